@@ -443,6 +443,7 @@ func panicSite(stack string) string {
 
 // Run decides C12.
 func Run(rep *report.Report, tier string) {
+	orders := rt.MapOrders(tier == "thorough")
 	type job struct {
 		pi   int
 		op   *spb.AFTOperation
@@ -484,7 +485,7 @@ func Run(rep *report.Report, tier string) {
 	var mu sync.Mutex
 	// every job once per iteration order of the maps of the instrumented packages (ascending, descending): the
 	// verdict on a message must not depend on which member of a keyed list the code happens to look at first
-	for _, order := range []int{0, 1} {
+	for _, order := range orders {
 		rt.MapOrder = order
 		var wg sync.WaitGroup
 		ch := make(chan job)
@@ -498,7 +499,7 @@ func Run(rep *report.Report, tier string) {
 					outcomes[strings.SplitN(oc, "/", 2)[0]]++
 					mu.Unlock()
 					for _, f := range fs {
-						rep.Violate(f.sig, f.what, map[string]any{"pre_state": preStates[j.pi].name, "mutation": j.desc, "operation": ribx.Text(j.op), "map_order": []string{"ascending", "descending"}[order]})
+						rep.Violate(f.sig, f.what, map[string]any{"pre_state": preStates[j.pi].name, "mutation": j.desc, "operation": ribx.Text(j.op), "map_order": rt.MapOrderName(order)})
 					}
 				}
 			}()
@@ -551,7 +552,7 @@ func Run(rep *report.Report, tier string) {
 			}
 		}
 	}
-	total := 2*len(jobs) + nReq
+	total := len(orders)*len(jobs) + nReq
 	rep.Set("evaluations", total)
 	rep.Set("distinct_nontrivial", total)
 	rep.Set("states", total)
@@ -560,7 +561,7 @@ func Run(rep *report.Report, tier string) {
 	rep.Set("single_mutations", nSingles)
 	rep.Set("mutation_pairs", nPairs)
 	rep.Set("get_flush_requests", nReq)
-	rep.Set("rule", "mutation closure by protoreflect walk: every populated field and every unpopulated field of a populated message x operator set {clear/empty sub-message, other oneof arm, undefined/zero/last enum, boundary integers, bad strings, empty/long bytes, empty list, duplicated element}; each mutant x 3 pre-states (pairs: richest pre-state) x 2 map iteration orders; all cases distinct by construction")
+	rep.Set("rule", "mutation closure by protoreflect walk: every populated field and every unpopulated field of a populated message x operator set {clear/empty sub-message, other oneof arm, undefined/zero/last enum, boundary integers, bad strings, empty/long bytes, empty list, duplicated element}; each mutant x 3 pre-states (pairs: richest pre-state) x map iteration orders (quick: ascending, descending; thorough: also their rotations by 1 and 2 = all orders of a 3-element map); all cases distinct by construction")
 	rep.Set("exhaustive", true)
 	rep.Set("distinct_outcomes", outcomes)
 	keys := make([]string, 0)
